@@ -1245,31 +1245,58 @@ func init() {
 			wit := (&PathQ{Fn: redo, Cut: []EdgeCut{deserTrue}, Avoid: isMapUpd(f), Target: isTypeTest}).FromAfter(dsites)
 			r.Check(wit == nil, "Redo:"+f.Name()+"-registered-for-every-record", "every decoded record is registered in "+f.Name()+" before the dispatch on its type", "path from DeserializeLogRecord to the type dispatch without the update: "+w.DescribeWitness(redo, wit))
 		}
-		// Undo
+		// Undo (the record read may sit in a private helper of Undo)
 		nRL := 0
-		for _, b := range undo.Blocks {
-			for _, in := range b.Instrs {
-				c, ok := isReadLog(in)
-				if !ok {
-					continue
+		impl := w.FuncAndHelpers(undo)
+		for _, f := range impl {
+			for _, b := range f.Blocks {
+				for _, in := range b.Instrs {
+					c, ok := isReadLog(in)
+					if !ok {
+						continue
+					}
+					nRL++
+					args := c.Common().Args
+					off := args[len(args)-2]
+					fromMap := DependsOn(off, func(x ssa.Value) bool {
+						l, ok := x.(*ssa.Lookup)
+						return ok && fieldLoadOf(l.X, mapFld)
+					})
+					r.Check(fromMap, "Undo:reads-the-log-at-lsnMapping"+itoaOrd(nRL), "Undo reads the record of an LSN at the offset Redo stored for it", "ReadLog offset at "+w.InstrPos(in)+" does not come from lsnMapping")
 				}
-				nRL++
-				args := c.Common().Args
-				off := args[len(args)-2]
-				fromMap := DependsOn(off, func(x ssa.Value) bool {
-					l, ok := x.(*ssa.Lookup)
-					return ok && fieldLoadOf(l.X, mapFld)
-				})
-				r.Check(fromMap, "Undo:reads-the-log-at-lsnMapping"+itoaOrd(nRL), "Undo reads the record of an LSN at the offset Redo stored for it", "ReadLog offset at "+w.InstrPos(in)+" does not come from lsnMapping")
 			}
 		}
 		r.Floor("ReadLog calls in Undo", nRL, 1)
 		// inner loop: the phi that feeds the lsnMapping lookup has a back edge from record.PrevLSN and the exit test compares it with InvalidLSN
 		var lsnPhi *ssa.Phi
-		for _, b := range undo.Blocks {
-			for _, in := range b.Instrs {
-				if l, ok := in.(*ssa.Lookup); ok && fieldLoadOf(l.X, mapFld) {
-					if p, ok := stripConv(l.Index).(*ssa.Phi); ok {
+		for _, f := range impl {
+			for _, b := range f.Blocks {
+				for _, in := range b.Instrs {
+					l, ok := in.(*ssa.Lookup)
+					if !ok || !fieldLoadOf(l.X, mapFld) {
+						continue
+					}
+					idx := stripConv(l.Index)
+					if f != undo {
+						// the index is a parameter of the helper: take the argument at Undo's call site
+						if prm, isParam := resolveCell(idx).(*ssa.Parameter); isParam {
+							pi := -1
+							for k, q := range f.Params {
+								if q == prm {
+									pi = k
+								}
+							}
+							idx = nil
+							EachCall(undo, func(c ssa.CallInstruction) {
+								if c.Common().StaticCallee() == f && pi >= 0 && pi < len(c.Common().Args) {
+									idx = stripConv(c.Common().Args[pi])
+								}
+							})
+						} else {
+							idx = nil
+						}
+					}
+					if p, ok := idx.(*ssa.Phi); ok && p.Parent() == undo {
 						lsnPhi = p
 					}
 				}
